@@ -4,6 +4,7 @@ request.  Model: Model/Block.lean; histories of entry-point calls
 (Lemmas/BlockTrace.lean).
 -/
 import CoapLite.Lemmas.BlockTrace
+import CoapLite.Lemmas.BlockSession
 import CoapLite.Lemmas.Shape.Block
 import CoapLite.Lemmas.Shape.BlockValue
 import CoapLite.Lemmas.Shape.Request
@@ -72,6 +73,27 @@ theorem entry_point_frame (h : Handler) (now : Nat) (req : Request) (hi : Lru.In
     (∀ k' now', k' ≠ keyOf req → now ≤ now' → Lru.peek out.1.cache k' now' = Lru.peek h.cache k' now') := by
   have h1 := interceptRequest_eq h now req hi
   exact ⟨h1.1, h1.2.1, h1.2.2.2.2.2.2.1⟩
+
+/-- SYSTEM LEVEL, with the cache and the clock: in EVERY monotone history of entry-point calls – any
+number of transfers interleaved in any way – the calls of the transfer with key `κ`, provided its
+consecutive calls are at most `ttl` apart (C20), observe exactly what the per-key core computes for
+them alone, threading one `BlockState` from the default state (`runKey`). So every statement proved
+about the core (C08 `whole_body`, C09 `upload_whole_body_partial`, C10, C11) holds for that transfer
+inside any traffic. -/
+theorem transfer_in_any_history (M ttl : Nat) (evs : List Ev) (κ : Key) (hm : Mono 0 evs)
+    (hsp : Spaced ttl (evs.filter (fun e => e.key = κ))) :
+    ((runEvs (Handler.new M ttl) evs).filter (fun o => o.1 = κ)).map (·.2) =
+      runKey M BlockState.default (evs.filter (fun e => e.key = κ)) :=
+  Block.transfer_in_any_history M ttl evs κ hm hsp
+
+/-- … and from any reachable handler state, with `st` the state in effect for `κ` at its first call -/
+theorem transfer_from_state (h : Handler) (t : Nat) (evs : List Ev) (κ : Key) (st : BlockState)
+    (hi : Lru.Inv h.cache t) (hm : Mono t evs)
+    (hsp : Spaced h.cache.ttl (evs.filter (fun e => e.key = κ)))
+    (hst : ∀ e ∈ (evs.filter (fun e => e.key = κ)).head?, effective h κ e.now = st) :
+    ((runEvs h evs).filter (fun o => o.1 = κ)).map (·.2) =
+      runKey h.maxSize st (evs.filter (fun e => e.key = κ)) :=
+  Block.transfer_from_state h t evs κ st hi hm hsp hst
 
 /-! ### tie to the source: the state the model carries is the state the code carries
 
